@@ -351,9 +351,10 @@ func (st *State) selectOp(x *ssa.Select) bool {
 			st.countChan("NCS", ch, chosen)
 		}
 	}
-	if x.Blocking && fr.parent == nil && fr.spec != nil && len(fr.spec.Wakes) > 0 {
+	// (also inside an inlined helper that has no contract of its own: the select was moved there)
+	if us := st.u.spec; x.Blocking && us != nil && len(us.Wakes) > 0 && (fr.parent == nil || fr.spec == nil) {
 		st.u.wakesHit = true
-		for _, wc := range fr.spec.Wakes {
+		for _, wc := range us.Wakes {
 			env := st.newEnv(fr, nil)
 			want := env.evalInt(wc.E)
 			st.assumeAll(env.defs)
